@@ -24,6 +24,7 @@
 #include <exception>
 #include <new>
 #include <typeinfo>
+#include <unordered_map>
 #include <string>
 
 #include "common.h"
@@ -42,9 +43,14 @@ void __ubsan_get_current_report_data(const char** kind, const char** msg, const 
 }
 
 namespace {
-bool g_ub_pending = false;
-char g_ub_site[512];
-char g_ub_msg[1024];
+// UBSan reports each source location once per process, so none may be dropped: queue them
+struct UbReport {
+  char site[400];
+  char msg[700];
+};
+constexpr int UB_QUEUE = 16;
+UbReport g_ub_queue[UB_QUEUE];
+int g_ub_count = 0;
 uint64_t g_huge_max = 0;
 
 const char* base_name(const char* p) {
@@ -58,17 +64,26 @@ int babylon_frames(std::string* out, int max) {
   int n = backtrace(bt, 64), k = 0;
   bool dbg = getenv("VERIF_SERIAL_DEBUG") != nullptr;
   for (int i = 0; i < n && k < max; ++i) {
-    Dl_info info;
     // return addresses: look up the call instruction, not what follows it (a noreturn call may end the function)
     void* pc = i > 0 ? static_cast<char*>(bt[i]) - 1 : bt[i];
-    if (!dladdr(pc, &info) || !info.dli_sname) {
+    static std::unordered_map<void*, std::string>* cache = new std::unordered_map<void*, std::string>();  // dladdr is slow
+    auto it = cache->find(pc);
+    if (it == cache->end()) {
+      Dl_info info;
+      std::string nm;
+      if (dladdr(pc, &info) && info.dli_sname) {
+        int st = 0;
+        char* dm = abi::__cxa_demangle(info.dli_sname, nullptr, nullptr, &st);
+        nm = dm ? dm : info.dli_sname;
+        free(dm);
+      }
+      it = cache->emplace(pc, nm).first;
+    }
+    const std::string& name = it->second;
+    if (name.empty()) {
       if (dbg) fprintf(stderr, "frame %d: %p unresolved\n", i, bt[i]);
       continue;
     }
-    int st = 0;
-    char* dm = abi::__cxa_demangle(info.dli_sname, nullptr, nullptr, &st);
-    std::string name = dm ? dm : info.dli_sname;
-    free(dm);
     if (dbg) fprintf(stderr, "frame %d: %s\n", i, name.c_str());
     if (vs::is_babylon_function(name)) out[k++] = vs::short_function(name);
   }
@@ -81,13 +96,17 @@ extern "C" __attribute__((used)) void __ubsan_on_report(void) {
   unsigned line = 0, col = 0;
   char* addr = nullptr;
   __ubsan_get_current_report_data(&kind, &msg, &file, &line, &col, &addr);
-  if (g_ub_pending) return;  // keep the first report of an evaluation
+  if (g_ub_count >= UB_QUEUE) return;
+  UbReport& slot = g_ub_queue[g_ub_count];
   // site = check kind @ innermost babylon function on the stack, falling back to the reported source file
   std::string fr[1];
   std::string where = babylon_frames(fr, 1) ? fr[0] : std::string(base_name(file));
-  snprintf(g_ub_site, sizeof g_ub_site, "%s@%s", kind, where.c_str());
-  snprintf(g_ub_msg, sizeof g_ub_msg, "UBSan: %s (%s:%u)", msg, base_name(file), line);
-  g_ub_pending = true;
+  // an out-of-range enum value is created by the (unchecked) cast at parse time; UBSan only notices it wherever the
+  // value is loaded next, which is incidental: one site for all of them
+  if (!strcmp(kind, "invalid-enum-load")) snprintf(slot.site, sizeof slot.site, "%s", kind);
+  else snprintf(slot.site, sizeof slot.site, "%s@%s", kind, where.c_str());
+  snprintf(slot.msg, sizeof slot.msg, "UBSan: %s (%s:%u)", msg, base_name(file), line);
+  ++g_ub_count;
 }
 
 namespace vs {
@@ -130,13 +149,14 @@ static struct InstallTerminate {
   InstallTerminate() { std::set_terminate(verif_terminate); }
 } g_install_terminate;
 bool ub_take(std::string& site, std::string& msg) {
-  if (!g_ub_pending) return false;
-  site = g_ub_site;
-  msg = g_ub_msg;
-  g_ub_pending = false;
+  if (g_ub_count == 0) return false;
+  site = g_ub_queue[0].site;
+  msg = g_ub_queue[0].msg;
+  for (int i = 1; i < g_ub_count; ++i) g_ub_queue[i - 1] = g_ub_queue[i];
+  --g_ub_count;
   return true;
 }
-void ub_clear() { g_ub_pending = false; }
+void ub_clear() { g_ub_count = 0; }
 void alloc_guard_reset(bool armed);
 uint64_t huge_alloc_take() {
   uint64_t m = g_huge_max;
@@ -157,6 +177,7 @@ int g_huge_active = 0;
 
 void* huge_alloc(size_t n) {
   if (n > g_huge_max) g_huge_max = n;
+  if (getenv("VERIF_SERIAL_DEBUG")) fprintf(stderr, "huge allocation request: %zu bytes\n", n);
   if (n > (1ull << 46)) return nullptr;
   void* p = mmap(nullptr, n, PROT_READ | PROT_WRITE, MAP_PRIVATE | MAP_ANONYMOUS | MAP_NORESERVE, -1, 0);
   if (p == MAP_FAILED) return nullptr;
